@@ -17,8 +17,7 @@ SPEC = {
                      "oracle measures it independently as len(serialised tx) - 1",
                      "harness/src/fixtures (ported test data)"],
     "assumptions": ["the transaction is a definite-length 3/4-element array (1-byte head), as every fixture and every on-chain tx is",
-                    "minimum fee representable in u32 (the code computes minfee_b + minfee_a * size in u32; overflow panics in the dev "
-                    "profile: C33) and size < 2^32"],
+                    "size < 2^32; the minimum fee is computed in u64 from u32 operands (C33 fix) and always fits (fee_formula_fits)"],
     "explanation": "Self-tests run: (1) `+ 1` reintroduced in get_conway_tx_size -> VIOLATION (validator-size-not-ledger-size era=conway / "
                    "rejects-at-ledger-boundary); (2) check_tx_size `>` turned into `>=` in babbage.rs -> VIOLATION; (3) harmless: "
                    "check_min_fee comparison rewritten as `min > fee` -> quiet.",
